@@ -112,6 +112,7 @@ fn gaussian2d<T: ndarray::NdFloat>(ctx: &Ctx, ty: &str, g: &G2, tol_rel: f64) {
         };
         close(ctx, "C15:gaussian2d-unnorm", "Gaussian2D::unnorm_logp", un, -0.5 * q, tol, &case);
         close(ctx, "C15:gaussian2d-norm", "Gaussian2D::logp (normalised)", no, -0.5 * q + gr.norm_const(), tol, &case);
+        ctx.sample_tagged("Gaussian2D point", || json!({"input": case.clone(), "unnorm_logp": un, "logp": no, "closed_form_unnorm": -0.5 * q, "tolerance": tol}));
         diffs.push(no - un);
         ctx.distinct(hash_f64s(ty, &[xr[0], xr[1], g.cov[0][0], g.cov[0][1], g.cov[1][1], g.mean[0], g.mean[1]]));
     }
@@ -277,6 +278,7 @@ where
                 // a wrong constant shows at every point; key it once by the zero-displacement case
                 let ok = close(ctx, "C15:isotropic-logp-normalisation", "IsotropicGaussian::logp(from,to) vs -d/2 ln(2 pi s^2) - |to-from|^2/(2 s^2)", got, want, tol_rel * scale * 4.0, &case);
                 let _ = (key, ok);
+                ctx.sample_tagged("IsotropicGaussian::logp", || json!({"input": case.clone(), "logp": got, "definition": want}));
                 let back = prop.logp(&tt, &ft).to_f64().unwrap();
                 close(ctx, "C15:isotropic-symmetry", "IsotropicGaussian::logp symmetric in its arguments", back, got, tol_rel * scale, &case);
                 ctx.distinct(hash_str(&case.to_string()));
@@ -391,8 +393,6 @@ pub fn run(ctx: &Ctx) {
     rosen::<f64, BF64>(ctx, "f64/NdArray<f64>", 1e-10);
     isotropic::<f32>(ctx, "f32", TOL32);
     isotropic::<f64>(ctx, "f64", 1e-12);
-    ctx.sample(json!({"target": "DiffableGaussian2D", "mean": [-2.0, 1.5], "cov": [[4.0, 2.0], [2.0, 3.0]], "x": [-2.0 + 1.8, 1.5 - 1.56], "checked": ["batched logp", "single logp", "autodiff gradient = Sigma^-1 (mu - x)"]}));
-    ctx.sample(json!({"proposal": "IsotropicGaussian", "std": 2.0, "d": 3, "checked": ["logp = -d/2 ln(2 pi s^2) - |to-from|^2/(2 s^2)", "symmetry", "integral = 1 (d=1,2)", "location-scale sample", "set_seed reproducibility"]}));
     ctx.assume("continuous domain covered by a finite lattice only (level: exploration); that the base noise of IsotropicGaussian::sample is standard normal is trusted to rand_distr");
     ctx.assume("DiffableGaussian2D rounds its parameters to f32 (burn from_floats) on every backend: f32-level tolerance (3e-5 relative to the magnitude of the summed terms), as the statement grants");
     ctx.not_exhaustive();
